@@ -88,6 +88,11 @@ def events_lib(I):
         return [(st, Conc(None))]
     I.lib["type.__setattr__"] = type_setattr
 
+    def type_delattr(I, st, fv, args, kwargs, ctx):
+        st.ghost["log"] = st.ghost.get("log", []) + [("classdict-delete", args[0], args[1])]
+        return [(st, Conc(None))]
+    I.lib["type.__delattr__"] = type_delattr
+
     def clear_cache(I, st, fv, args, kwargs, ctx):
         st.ghost["log"] = st.ghost.get("log", []) + [("clear-cache", fv.data.get("self"))]
         return [(st, Conc(None))]
@@ -136,8 +141,15 @@ def metaclass_setattr_contract():
     def configure(I):
         events_lib(I)
 
+        I.sym_fields = {"default"}
+
         def copy_copy(I, st, fv, args, kwargs, ctx):
+            # a shallow copy shares the default with the Parameter it was copied from
             r = I.alloc_obj(st, "Parameter", lazy=True, label="param_copy")
+            from pyvc.objects import sym_field
+            d = Sym(z3.Select(sym_field(I, st, "default"), I.term(args[0])))
+            st.heap[r.oid].fields["default"] = d
+            st.heap[r.oid].init["default"] = d
             st.ghost["copy"] = r
             return [(st, r)]
         I.lib["copy.copy"] = copy_copy
@@ -189,6 +201,14 @@ def metaclass_setattr_contract():
             out.append(("class-dict write of a Parameter is followed by clearing the cache (class and descendants)",
                         z3.Implies(is_p, z3.BoolVal(later))))
         if isinstance(oc, Raise):
+            # C02: the descriptor rejected the value (exceptional frame of Parameter.__set__: nothing
+            # written): a copy of the inherited Parameter made for this assignment is removed again
+            d = [i for i, k in enumerate(kinds) if k == "classdict-delete"]
+            undone = all(any(j > i and log[j][1] == log[i][1] and log[j][2] is log[i][2] for j in d) for i in w)
+            out.append(("C02/a rejected class-level assignment leaves the class without a copy of the inherited Parameter",
+                        z3.BoolVal(oc.origin == "__set__" and undone)))
+            out.append(("C02/… and the cache is cleared after the copy is removed",
+                        z3.BoolVal(all(any(j > i for j in c) for i in d))))
             return out
         plain = z3.And(vm.truthy(info["par"]), z3.Not(is_param_value))
         out.append(("a plain value for an existing Parameter goes through the descriptor's __set__ exactly once, at class level",
